@@ -1,8 +1,10 @@
 package props
 
 import (
+	"context"
 	"fmt"
 	"io"
+	"math"
 	"reflect"
 	"runtime"
 	"strings"
@@ -79,6 +81,17 @@ func (s *slotChecker) add(v string) {
 		}
 	}
 	s.violations = append(s.violations, v)
+}
+
+// c08RunHooked runs one entry point with the slot checker armed. The checker follows ONE pointer stack: an entry
+// point that runs a second encode inside the first (a field query is hashed by marshaling it) is run without it.
+func c08RunHooked(e *c08Entry, x interface{}, got *encResult) []string {
+	if strings.Contains(e.name, "query") {
+		*got = runEnc(e.run, x)
+		return nil
+	}
+	viol, _ := withSlotHook(func() { *got = runEnc(e.run, x) })
+	return viol
 }
 
 func withSlotHook(f func()) (violations []string, loads int) {
@@ -220,6 +233,40 @@ var c08Entries = []c08Entry{
 	}},
 	{"Debug", func(x interface{}) ([]byte, error) { return json.MarshalWithOption(x, json.DebugWith(io.Discard)) }},
 	{"MarshalNoEscape", func(x interface{}) ([]byte, error) { return json.MarshalNoEscape(x) }},
+	// the programs compiled for a field query are separate programs: a query that selects every member of the root
+	// struct (each one whole) must traverse the value exactly like Marshal
+	{"MarshalContext+query of all members", func(x interface{}) ([]byte, error) {
+		q := c08AllQuery(reflect.TypeOf(x))
+		if q == nil {
+			return json.Marshal(x)
+		}
+		return json.MarshalContext(json.SetFieldQueryToContext(context.Background(), q), x)
+	}},
+}
+
+// c08AllQuery: a query naming every member of the struct t leads to (through pointers); nil when t does not lead
+// to a struct or the struct embeds another (embedded structs are selected by type name, a rule of its own).
+func c08AllQuery(t reflect.Type) *json.FieldQuery {
+	if t == nil {
+		return nil
+	}
+	for t.Kind() == reflect.Ptr {
+		t = t.Elem()
+	}
+	if t.Kind() != reflect.Struct {
+		return nil
+	}
+	q := &json.FieldQuery{}
+	for i := 0; i < t.NumField(); i++ {
+		f := t.Field(i)
+		if f.Anonymous {
+			return nil
+		}
+		if n, ok, _ := universe.JSONName(f); ok {
+			q.Fields = append(q.Fields, &json.FieldQuery{Name: n})
+		}
+	}
+	return q
 }
 
 // c08One encodes x through every interpreter with the slot hook armed and compares with encoding/json.
@@ -227,7 +274,7 @@ func c08One(c *work.Ctx, shape, id string, x interface{}) {
 	for k := range c08Entries {
 		e := &c08Entries[k]
 		var got encResult
-		viol, _ := withSlotHook(func() { got = runEnc(e.run, x) })
+		viol := c08RunHooked(e, x, &got)
 		what := ""
 		switch {
 		case len(viol) > 0:
@@ -451,7 +498,7 @@ func c08Cycles(c *work.Ctx) {
 			x := cs.make()
 			if x != nil {
 				var got encResult
-				viol, _ := withSlotHook(func() { got = runEnc(e.run, x) })
+				viol := c08RunHooked(e, x, &got)
 				what := ""
 				switch {
 				case len(viol) > 0:
@@ -541,6 +588,7 @@ type c08DagQ struct {
 
 func init() {
 	work.Register("C08", "c08.dag", c08Dag)
+	work.Register("C01", "c01.deep", c08Dag)
 }
 
 func c08Dag(c *work.Ctx) {
@@ -616,6 +664,17 @@ func c08Dag(c *work.Ctx) {
 			}
 			return &n
 		}},
+		{"list of F{V float64; I; Next} that failed (NaN in its last node) a call earlier and has been repaired", func(d int) interface{} {
+			n := c08FailingList(d)
+			_, _ = json.Marshal(n)
+			_, _ = json.MarshalIndent(n, "", " ")
+			last := n
+			for last.Next != nil {
+				last = last.Next
+			}
+			last.V = 2
+			return n
+		}},
 		{"[]interface{} nested, every level holds the same nil-interface leaf twice", func(d int) interface{} {
 			leaf := &c08DagLeaf{}
 			var v interface{} = []interface{}{leaf, leaf}
@@ -634,8 +693,12 @@ func c08Dag(c *work.Ctx) {
 			x := sh.mk(d)
 			for k := range c08Entries[:2] {
 				e := &c08Entries[k]
-				// twice: the second call meets whatever the first one left in the pooled context
+				// twice: the second call meets whatever the first one left in the pooled context; before the first,
+				// a call that FAILS at the bottom of a list of the same depth (its frames are still open when it gives up)
+				failing := c08FailingList(d)
 				for round := 0; round < 2; round++ {
+					_ = runEnc(e.run, failing)
+					_ = runEnc(e.run, failing)
 					got := runEnc(e.run, x)
 					want := runEnc(c01Configs[k].std, x)
 					what := ""
@@ -662,6 +725,21 @@ func c08Dag(c *work.Ctx) {
 			c.EndCase()
 		}
 	}
+}
+
+type c08FailN struct {
+	V    float64
+	I    interface{}
+	Next *c08FailN
+}
+
+// c08FailingList: d nodes, the last one holds a NaN (no JSON text: the call fails d frames deep).
+func c08FailingList(d int) *c08FailN {
+	n := &c08FailN{V: math.NaN()}
+	for i := 0; i < d; i++ {
+		n = &c08FailN{V: 1, Next: n}
+	}
+	return n
 }
 
 func oracleTokens(a, b []byte) string { return oracle.TokensEqual(a, b) }
